@@ -66,17 +66,22 @@ func verifHandleVote(tr *voteTracker, rh routerHandle, ev voteAcceptedEvent) (ou
 //verif:noop (github.com/algorand/go-algorand/crypto.Digest).String
 
 //verif:harness prop=C06 reach=done,fired,duplicate,equivocation unwind=12 budget=280 thorough.budget=3000
-func VerifC06CountingSoft() { verifC06Counting(soft) }
+func VerifC06CountingSoft() { verifC06Counting(soft, vr.Param(4, 4), vr.Param(2, verifC06Senders), false) }
 
 //verif:harness prop=C06 reach=done,fired,duplicate,equivocation unwind=12 budget=280 thorough.budget=3000
-func VerifC06CountingCert() { verifC06Counting(cert) }
+func VerifC06CountingCert() { verifC06Counting(cert, vr.Param(4, 4), vr.Param(2, verifC06Senders), false) }
 
 //verif:harness prop=C06 reach=done,fired,duplicate,equivocation unwind=12 budget=280 thorough.budget=3000
-func VerifC06CountingNext() { verifC06Counting(next) }
+func VerifC06CountingNext() { verifC06Counting(next, vr.Param(4, 4), vr.Param(2, verifC06Senders), false) }
 
-func verifC06Counting(stp step) {
-	L := vr.Param(4, 4)
-	nS := vr.Param(2, verifC06Senders) // quick: 2 senders, thorough: 3
+// Deeper histories at lower cost: all senders carry ONE shared symbolic weight
+// (so bundle packing order is decided by address alone) while the threshold
+// stays symbolic. This reaches the 5-6 vote interleavings of two equivocators
+// and a third voter that the fully symbolic-weight harnesses cannot afford.
+//verif:harness prop=C06 reach=done,fired,duplicate,equivocation unwind=12 budget=450 thorough.budget=3000
+func VerifC06DeepEqualWeights() { verifC06Counting(cert, vr.Param(5, 6), verifC06Senders, true) }
+
+func verifC06Counting(stp step, L int, nS int, equalWeights bool) {
 	thr := vr.U64("threshold")
 	vr.Assume(thr >= 1 && thr < 1<<62)
 	verifInstallThreshold(thr)
@@ -85,6 +90,9 @@ func verifC06Counting(stp step) {
 	for i := range w {
 		w[i] = vr.U64(names[i])
 		vr.Assume(w[i] >= 1 && w[i] < 1<<60) // verified credentials carry non-zero weight; no wrap-around
+		if equalWeights && i > 0 {
+			w[i] = w[0]
+		}
 	}
 	tr := &voteTracker{}
 	rh := verifRouterHandle()
